@@ -25,6 +25,9 @@ LEVEL = {
  "C13": ("model_checking", "explicit-state exploration of the merge state space on the implementation (states deduplicated by canonical key, successors by replay)",
          "every merge of the bounded synonym state space (6 segment shapes x every drop vector x provenance, depth <= 2/3) is executed on the real code and every (thesaurus, term, exclusion bitmap) lookup on the merged segment compared with the reference of the surviving definitions",
          "reference model in harness/ref", "4 C12/C13"),
+ "C07": ("exploration", "bounded-exhaustive enumeration of inputs x call histories (tree of all Next/Advance sequences, successor = replayed prefix + one call) on the implementation vs. a sorted-slice reference",
+         "every postings set and exclusion set over N<=5/7 documents x chunk sizes x encodings (general, single-hit) x segment kinds x all detail-flag combinations x every maximal Next/Advance call sequence, ReplaceActual with every subset, and every ordered pair/triple of preallocation reuse over a 20-list family, is executed on the real iterator and compared call by call with a sorted slice; exhaustive within the bounds",
+         "reference = sorted slice of the reference model's hits; only requested details are compared", "4 C07"),
  "C01": ("exploration", "bounded-exhaustive input enumeration on the implementation vs. reference model",
          "every batch of a stated finite alphabet (cell menu per document x field, N<=3; column and chunk-boundary families) x chunk modes x both build tags is built by the real code and its complete term/postings content compared with an independent reference model; exhaustive within the bounds, no sampling",
          "reference model in harness/ref; inputs only inside the alphabet; Go map order not enumerable (semantic oracle)", "4 C01"),
